@@ -36,7 +36,15 @@ class Exec:
 
     # ---- utilities -------------------------------------------------------------------------
     def vc(self, name, st: St, goal, note=""):
-        self.vcs.append((name, st.hyps(), goal, note))
+        # one solver query per top-level conjunct (small queries are the stable ones)
+        hyps = st.hyps()
+        stack = [goal]
+        while stack:
+            g = stack.pop()
+            if z3.is_and(g):
+                stack.extend(g.children())
+            else:
+                self.vcs.append((name, hyps, g, note))
 
     def branch(self, c, st: St, kt, kf):
         c = z3.simplify(c)
